@@ -383,6 +383,45 @@ nd::harnesses! {
         }
     }
 
+    /// A payload of more than 1 KiB (boxed directly, through `trait_obj!`, opaque or not) is destroyed exactly once.
+    #[kani::unwind(4)]
+    fn c06_large_payload() {
+        reset();
+        let v: u32 = nd::any();
+        let path: u8 = nd::any();
+        nd::assume(path < 3);
+        {
+            let big = crate::corpus3::BigPay { pad: [0; 1200], pay: Pay::new(v) };
+            match path {
+                0 => { let b = CBox::from(big); assert!(b.pay.val == v && live() == 1); drop(b); }
+                1 => { let b = CBox::from(big).into_opaque(); assert!(drops() == 0); drop(b); }
+                _ => { let o = trait_obj!(big as LeafRO); assert!(o.ro_val() == v && live() == 1); drop(o); }
+            }
+            assert!(live() == 0 && drops() == 1, "destroyed exactly once");
+        }
+        balanced();
+    }
+
+    /// First (and second) call of a method returning a lifetime-bound wrapped `&mut` value on an object whose context has
+    /// a destructor: nothing that was never created is destroyed (the temporary slot starts uninitialised).
+    #[kani::unwind(4)]
+    fn c06_lifetime_bound_mut_return_first_call() {
+        reset();
+        ctx_reset();
+        let v: u32 = nd::any();
+        let base = Ctx::new();
+        {
+            let mut obj = trait_obj!((P::new(v), base.clone()) as crate::corpus3::LtMut);
+            assert!(ctx_live() == 2);
+            use crate::corpus3::LtMut;
+            let r = obj.lt_leaf();
+            let _ = r.val();
+            assert!(ctx_live() >= 2, "nothing was released by obtaining the borrowed child");
+        }
+        drop(base);
+        assert!(live() == 0 && drops() == made(), "every payload destroyed exactly once");
+    }
+
     /// Negative twin: claims a consuming call leaves the value alive.
     #[kani::unwind(4)]
     fn c06_negative_twin() {
